@@ -361,6 +361,7 @@ func globalSplitCase(col *Collector, mask int, nDefs int, variant int) {
 }
 
 func runC17(col *Collector, tier string, seed int64) {
+	loaderReuseCases(col, "C17", []string{"yaml", "json"}, []string{"unparsable", "missing"})
 	rng := rand.New(rand.NewSource(seed))
 	col.res.Rule = "real Loader.Load on generated file trees in nested directories: every import graph on <=3 files (every edge set incl. self-loops and cycles), random graphs up to 6 files, repeated imports, directory imports, " +
 		"one file missing or unparsable at every position, a non-clean root path; every split of 6 non-conflicting definitions (tasks, contexts, variables) between the global file and the project file. non-trivial = all; distinct = distinct specifications"
